@@ -651,6 +651,22 @@ pub fn c18(rng: &mut Rng, thorough: bool, idx: u64) -> Spec {
         roles.insert(id.to_string(), serde_json::json!("holder"));
         clients.push(mk(id, p.steps, rng.range(0, 20)));
     }
+    if nhold >= 1 && !exhaustion && rng.chance(0.5) {
+        // somebody who used the server connection before the first holder took it, and who
+        // leaves while the holder is inside its transaction: the holder's server stays "active"
+        id += 1;
+        let mut p = Prog::new(id);
+        p.new_txn();
+        let s = p.select(1, 0, "");
+        p.simple(s);
+        p.steps.push(Step::Wait { ev: "c1.quiet".into() });
+        p.think(rng.range(0, 10));
+        p.steps.push(match rng.below(3) { 0 => Step::Terminate, 1 => Step::Drop { abort: false }, _ => Step::Drop { abort: true } });
+        clients[0].start = When::After { ev: format!("c{}.s0.done", id), delay_ms: rng.range(0, 5) };
+        quiet_events.push(format!("c{}.done", id));
+        roles.insert(id.to_string(), serde_json::json!("leaver"));
+        clients.push(mk(id, p.steps, rng.range(0, 5)));
+    }
     // workers: several transactions before and after the sample
     let nwork = if exhaustion { 0 } else { rng.range(1, if thorough { 4 } else { 3 }) };
     for _ in 0..nwork {
@@ -658,6 +674,13 @@ pub fn c18(rng: &mut Rng, thorough: bool, idx: u64) -> Spec {
         let mut p = Prog::new(id);
         let nn = rng.range(1, 6);
         worker_prog(&mut p, rng, nn, (1, 30), true);
+        if rng.chance(0.3) {
+            // CancelRequest connections: they are no clients, and leave no trace in the lists
+            for _ in 0..rng.range(1, 2) {
+                p.steps.push(Step::Cancel { target: id, key: rng.pick(&["target", "random", "wrongsecret"]).to_string() });
+            }
+            p.think(rng.range(1, 20));
+        }
         p.steps.push(Step::Emit { ev: format!("c{}.quiet", id) });
         p.steps.push(Step::Wait { ev: "sample1".into() });
         let nn = rng.range(0, 4);
